@@ -299,7 +299,9 @@ def cli_level(ctx: Ctx, cs, base, real=False, strace=False):
     if had_err2:
         text2, expect2 = text, expect
     layout = {'a.krn': text, 'b.kern': text2, 'note.txt': 'not kern', 'sub/c.krn': text, 'sub/deep/d.kern': text, 'sub/e.ekrn': expect,
-              'sub/a.krn': text2, 'sub/deep/a.kern': text, 'sub/deep/b.krn': text, 'other/c.krn': text2}
+              'sub/a.krn': text2, 'sub/deep/a.kern': text, 'sub/deep/b.krn': text, 'other/c.krn': text2,
+              # an ekern file next to a kern file of the same stem: not an input of this converter
+              'sub/deep/b.ekern': expect2}
     expected_out = {'a.ekrn': expect, 'b.ekrn': expect2, 'sub/c.ekrn': expect, 'sub/deep/d.ekrn': expect, 'sub/a.ekrn': expect2,
                     'sub/deep/a.ekrn': expect, 'sub/deep/b.ekrn': expect, 'other/c.ekrn': expect2}
     for rel, t in layout.items():
@@ -323,8 +325,25 @@ def cli_level(ctx: Ctx, cs, base, real=False, strace=False):
             if read(os.path.join(droot, rel)) != expected_out[rel]:
                 ctx.violation('cli-directory', f'{rel} differs from the API result for its own input file', case)
                 break
-    if read(os.path.join(droot, 'sub/e.ekrn')) != expect or read(os.path.join(droot, 'a.krn')) != text:
-        ctx.violation('cli-directory', 'directory mode modified an input file', case)
+    if read(os.path.join(droot, 'sub/e.ekrn')) != expect or read(os.path.join(droot, 'a.krn')) != text or \
+            read(os.path.join(droot, 'sub/deep/b.ekern')) != expect2:
+        ctx.violation('cli-directory', 'directory mode modified a file that is not one of its outputs', case)
+    # the same command once more over the tree that now holds its own outputs: the same files with the same contents
+    snap_tree = {}
+    for dp, dn, fn in os.walk(droot):
+        for n in fn:
+            snap_tree[os.path.relpath(os.path.join(dp, n), droot)] = read(os.path.join(dp, n))
+    ctx.ev()
+    ctx.mon('cli_runs')
+    ctx.mon('cli_directory_reruns')
+    run(['--kern2ekern', '--input_path', droot, '--verbose', '0'] + (['-r'] if recursive else []))
+    now_tree = {}
+    for dp, dn, fn in os.walk(droot):
+        for n in fn:
+            now_tree[os.path.relpath(os.path.join(dp, n), droot)] = read(os.path.join(dp, n))
+    if now_tree != snap_tree:
+        ch = sorted(k for k in set(now_tree) | set(snap_tree) if now_tree.get(k) != snap_tree.get(k))
+        ctx.violation('cli-directory', f'a second run of directory mode (recursive={recursive}) over its own output changed {ch[:4]}', case)
     # the reverse converter in directory mode: every .ekrn / .ekern becomes the .krn next to it
     eroot = os.path.join(root, 'etree')
     elayout = {'x.ekrn': expect, 'sub/x.ekrn': expect2, 'sub/y.ekern': expect, 'deep/er/x.ekern': expect2, 'z.txt': 'no'}
